@@ -12,8 +12,9 @@ PROP = dict(
          "the real code through the H3 hooks in a fresh directory, every step's observation (return status, dirty, writer "
          "position, the three layers, the dictionary file through Trie::open+entries, the temp file) recomputed by the model; "
          "distinct = distinct realised schedule. quick: all scripts of <= 2 foreground steps x all release points + a seeded "
-         "sample of the length 3-4 enumeration + the F12 witnesses + 60 process deaths (6 scenarios x 10 writer positions); "
-         "thorough: the full enumeration (scripts <= 4 over {add,update,remove x 2 keys, flush, reopen}, length 5 over a "
+         "sample of the length 3-4 enumeration + the F12 witnesses + 60 process deaths (6 scenarios x 10 writer positions) + "
+         "an editor tier (learn/unlearn/key events through a real Editor over a file-backed user dictionary, the editor dropped "
+         "at chosen writer positions); thorough: the full enumeration (scripts <= 4 over {add,update,remove x 2 keys, flush, reopen}, length 5 over a "
          "reduced alphabet, each followed by every split of Drop)",
     trusted_base=[
         "step model granularity: real threads are assumed to interleave only at the hook points (each foreground call reads "
@@ -44,7 +45,8 @@ MANIFEST = dict(
          "points of the step model) by an inductive invariant: the path always holds a complete dictionary and changes only "
          "at the rename step, to the complete snapshot (atomic, atomic_step, atomic_old_or_new, atomic_after_crash); sync adopts "
          "a writer's result only if no change was accepted since the snapshot (adopt_safe); after close the file holds exactly "
-         "the live contents (durable_full) which are exactly the accepted changes applied to the initial file (durable_spec). "
+         "the live contents (durable_full; editor_durable for the editor's learn / unlearn / reopen+flush-after-key pattern), which "
+         "are exactly the accepted changes applied to the initial file once C09's tombstone repair is merged (durable_spec). "
          "PARTIAL BY NATURE: the truth lives partly in the runtime; that real threads interleave only at the modelled points, "
          "that rename(2) is atomic and that the writer never writes the path in place are trusted-base assumptions. The step "
          "model is validated against the real code on every run: the harness parks the writer thread and Drop at each hook "
